@@ -41,6 +41,37 @@ fn readable(block: &Block, span: usize) -> Option<String> {
     .ok()
 }
 
+/// Removes `Expression::Parenthese` nodes whose content is not a call or `...` (the only
+/// parentheses that change meaning: they truncate multiple values).  The generators add
+/// parentheses where precedence requires them and darklua's parser keeps every parenthese as a
+/// node, so the comparison of trees is made modulo these neutral parentheses.
+struct StripParentheses;
+
+impl darklua_core::process::NodeProcessor for StripParentheses {
+    fn process_expression(&mut self, expression: &mut Expression) {
+        loop {
+            let inner = match expression {
+                Expression::Parenthese(parenthese) => match parenthese.inner_expression() {
+                    Expression::Call(_) | Expression::VariableArguments(_) => None,
+                    inner => Some(inner.clone()),
+                },
+                _ => None,
+            };
+            match inner {
+                Some(inner) => *expression = inner,
+                None => break,
+            }
+        }
+    }
+}
+
+pub fn normalize(block: &Block) -> Block {
+    use darklua_core::process::{DefaultVisitor, NodeVisitor};
+    let mut block = block.clone();
+    DefaultVisitor::visit_block(&mut block, &mut StripParentheses);
+    block
+}
+
 fn reparse(block: &Block, code: &Option<String>) -> &'static str {
     match code {
         None => "panic",
@@ -50,7 +81,17 @@ fn reparse(block: &Block, code: &Option<String>) -> &'static str {
             Ok(Ok(parsed)) => {
                 if &parsed == block {
                     "ok"
+                } else if normalize(&parsed) == normalize(block) {
+                    "okp"
                 } else {
+                    if std::env::var("DLC02_EXPLAIN").is_ok() {
+                        for (a, b) in parsed.iter_statements().zip(block.iter_statements()) {
+                            if a != b {
+                                eprintln!("EXPLAIN\n  parsed:   {:?}\n  original: {:?}", a, b);
+                                break;
+                            }
+                        }
+                    }
                     "diff"
                 }
             }
@@ -72,13 +113,21 @@ fn emit_case(id: &mut usize, block: &Block, spans: &[usize], tag: &str) {
             *id,
             span,
             encoded,
-            d.as_ref().map(|s| hex(s.as_bytes())).unwrap_or_else(|| "PANIC".into()),
-            r.as_ref().map(|s| hex(s.as_bytes())).unwrap_or_else(|| "PANIC".into()),
+            d.as_ref().map(|s| hex_or_dash(s.as_bytes())).unwrap_or_else(|| "PANIC".into()),
+            r.as_ref().map(|s| hex_or_dash(s.as_bytes())).unwrap_or_else(|| "PANIC".into()),
             reparse(block, &d),
             reparse(block, &r),
             tag
         );
         *id += 1;
+    }
+}
+
+fn hex_or_dash(bytes: &[u8]) -> String {
+    if bytes.is_empty() {
+        "-".to_owned()
+    } else {
+        hex(bytes)
     }
 }
 
@@ -151,6 +200,149 @@ fn stream(seed: u64, n: u64) {
     }
 }
 
+/// expression samples: one per token class that can begin or end an expression
+fn samples() -> Vec<(&'static str, Expression)> {
+    use gen::number;
+    let long = |v: Vec<u8>| -> Expression { StringExpression::from_value(v).into() };
+    let mut ends_bracket = vec![b'y'; 61];
+    ends_bracket.extend_from_slice(b"]]]");
+    let call = |name: &str| FunctionCall::from_name(name);
+    vec![
+        ("name", Expression::identifier("a")),
+        ("name_e", Expression::identifier("e")),
+        ("name_digit", Expression::identifier("_1")),
+        ("nil", Expression::nil()),
+        ("true", Expression::from(true)),
+        ("int", number("1")),
+        ("frac", number("1.5")),
+        ("exp", number("1e5")),
+        ("negexp", number("5e-3")),
+        ("hex_e", number("0xe")),
+        ("hex", number("0xff")),
+        ("bin", number("0b1")),
+        ("str", StringExpression::from_value("a").into()),
+        ("str_dash", StringExpression::from_value("--").into()),
+        ("long", long(vec![b'x'; 64])),
+        ("long_bracket", long(ends_bracket)),
+        ("varargs", Expression::variable_arguments()),
+        ("table", TableExpression::default().into()),
+        ("function", FunctionExpression::default().into()),
+        ("paren", ParentheseExpression::new(Expression::identifier("a")).into()),
+        ("call", call("f").into()),
+        ("call_str", call("f").with_arguments(StringExpression::from_value("x")).into()),
+        ("call_table", call("f").with_arguments(TableExpression::default()).into()),
+        ("index", IndexExpression::new(Prefix::from_name("a"), number("1")).into()),
+        ("field", FieldExpression::new(Prefix::from_name("a"), "b").into()),
+        ("neg", UnaryExpression::new(UnaryOperator::Minus, Expression::identifier("a")).into()),
+        ("not", UnaryExpression::new(UnaryOperator::Not, Expression::identifier("a")).into()),
+        ("len", UnaryExpression::new(UnaryOperator::Length, Expression::identifier("a")).into()),
+        ("negnum", UnaryExpression::new(UnaryOperator::Minus, number("1")).into()),
+        (
+            "ifexp",
+            IfExpression::new(Expression::identifier("c"), number("1"), number("2")).into(),
+        ),
+        (
+            "interp",
+            InterpolatedStringExpression::empty()
+                .with_segment(StringSegment::from_value("s"))
+                .with_segment(ValueSegment::new(Expression::identifier("v")))
+                .into(),
+        ),
+        ("cast", TypeCastExpression::new(Expression::identifier("a"), TypeName::new("T")).into()),
+        (
+            "cast_opt",
+            TypeCastExpression::new(Expression::identifier("a"), OptionalType::new(TypeName::new("T"))).into(),
+        ),
+        ("concat", BinaryExpression::new(BinaryOperator::Concat, number("1"), number("2")).into()),
+        ("sub", BinaryExpression::new(BinaryOperator::Minus, Expression::identifier("a"), number("1")).into()),
+    ]
+}
+
+fn assign(value: impl Into<Expression>) -> Statement {
+    AssignStatement::from_variable(Variable::new("x"), value).into()
+}
+
+/// every syntactic position where the end of expression `a` is written next to the start of
+/// expression `b` (directly, or with one operator / bracket / comma / keyword between them)
+fn pair_block(a: &Expression, b: &Expression) -> Block {
+    let mut statements: Vec<Statement> = Vec::new();
+    for operator in gen::BINARY_OPERATORS {
+        statements.push(assign(BinaryExpression::new(operator, a.clone(), b.clone())));
+    }
+    for operator in gen::UNARY_OPERATORS {
+        statements.push(assign(UnaryExpression::new(operator, b.clone())));
+        statements.push(assign(BinaryExpression::new(
+            BinaryOperator::Minus,
+            a.clone(),
+            UnaryExpression::new(operator, b.clone()),
+        )));
+        statements.push(assign(BinaryExpression::new(
+            BinaryOperator::Concat,
+            a.clone(),
+            UnaryExpression::new(operator, b.clone()),
+        )));
+    }
+    // a , b   /  ( a , b )  /  [ a ]  /  { [a] = b }  /  { a , b } / { n = a }
+    statements.push(AssignStatement::new(vec![Variable::new("x"), Variable::new("y")], vec![a.clone(), b.clone()]).into());
+    statements.push(Statement::Call(FunctionCall::from_name("f").with_argument(a.clone()).with_argument(b.clone())));
+    statements.push(assign(IndexExpression::new(Prefix::from_name("t"), a.clone())));
+    statements.push(assign(IndexExpression::new(
+        Prefix::Parenthese(Box::new(ParentheseExpression::new(a.clone()))),
+        b.clone(),
+    )));
+    statements.push(assign(TableExpression::new(vec![
+        TableEntry::Index(Box::new(TableIndexEntry::new(a.clone(), b.clone()))),
+        TableEntry::Value(Box::new(a.clone())),
+        TableEntry::Value(Box::new(b.clone())),
+        TableEntry::Field(Box::new(TableFieldEntry::new("n", a.clone()))),
+    ])));
+    statements.push(assign(ParentheseExpression::new(a.clone())));
+    statements.push(assign(IfExpression::new(a.clone(), b.clone(), a.clone())));
+    statements.push(assign(
+        InterpolatedStringExpression::empty()
+            .with_segment(ValueSegment::new(a.clone()))
+            .with_segment(ValueSegment::new(b.clone())),
+    ));
+    // statement forms
+    statements.push(VariableAssignment::new(vec!["l".into()], vec![a.clone()]).into());
+    for operator in gen::COMPOUND_OPERATORS {
+        statements.push(CompoundAssignStatement::new(operator, Variable::new("x"), a.clone()).into());
+    }
+    statements.push(
+        NumericForStatement::new("i", a.clone(), b.clone(), Some(a.clone()), Block::default()).into(),
+    );
+    statements.push(
+        GenericForStatement::new(vec!["k".into()], vec![a.clone(), b.clone()], Block::default()).into(),
+    );
+    statements.push(WhileStatement::new(Block::default(), a.clone()).into());
+    statements.push(RepeatStatement::new(Block::default(), a.clone()).into());
+    statements.push(IfStatement::create(a.clone(), Block::default()).into());
+    // expression statement b right after a statement ending in a
+    statements.push(assign(a.clone()));
+    statements.push(Statement::Call(
+        FunctionCall::from_prefix(Prefix::Parenthese(Box::new(ParentheseExpression::new(b.clone())))),
+    ));
+    statements.push(assign(a.clone()));
+    Block::new(
+        statements,
+        Some(LastStatement::Return(ReturnStatement::new(vec![a.clone(), b.clone()]))),
+    )
+}
+
+fn pairs(limit: usize, spans: &[usize]) {
+    let samples = samples();
+    let mut id = 0usize;
+    for (i, (name_a, a)) in samples.iter().enumerate() {
+        for (j, (name_b, b)) in samples.iter().enumerate() {
+            if i >= limit && j >= limit {
+                continue;
+            }
+            let block = pair_block(a, b);
+            emit_case(&mut id, &block, spans, &format!("pair:{}:{}", name_a, name_b));
+        }
+    }
+}
+
 fn main() {
     let args: Vec<String> = std::env::args().skip(1).collect();
     let args = &args[..];
@@ -159,6 +351,14 @@ fn main() {
     match sub {
         "tables" => tables(arg_u64(args, "--seed", 1)),
         "stream" => stream(arg_u64(args, "--seed", 1), arg_u64(args, "--n", 100)),
+        "pairs" => {
+            let limit = arg_u64(args, "--limit", 1000) as usize;
+            if args.iter().any(|a| a == "--all-spans") {
+                pairs(limit, &SPANS)
+            } else {
+                pairs(limit, &[0, 7, 1_000_000_000])
+            }
+        }
         _ => {
             eprintln!("dl-c02: unknown subcommand {:?}", sub);
             std::process::exit(2);
